@@ -27,7 +27,7 @@ notes = "\n".join("* `%s`: %s" % (m["id"], m["history"]) for m in hist)
 p = os.path.join(VERIF, "DESIGN.md")
 s = open(p).read()
 b, e = "<!-- SEEDED-TABLE-BEGIN -->", "<!-- SEEDED-TABLE-END -->"
-block = "%s\n\n%d seeded changes are kept, %d of them detected (%d of those only by a sanitizer lane of the thorough tier, the rest by the quick tier).\n\n%s\n\nChanges that were missed at first (and what was strengthened), or are not detected:\n\n%s\n\n%s" % (b, total, det, thor_only, table, notes, e)
+block = "%s\n\n%d seeded changes are kept, %d of them detected (%d of those only by the thorough tier - a sanitizer lane or an input of several MB -, the rest by the quick tier).\n\n%s\n\nChanges that were missed at first (and what was strengthened), or are not detected:\n\n%s\n\n%s" % (b, total, det, thor_only, table, notes, e)
 if b in s:
     s = s[:s.index(b)] + block + s[s.index(e) + len(e):]
 else:
